@@ -17,6 +17,7 @@
   bookkeeping of FrechetAudioDistance are modelled).
 -/
 import TE.Model.Basic
+import TE.Model.ClassSM
 namespace TE.Agg
 open TE
 
@@ -461,5 +462,32 @@ def frechetAB (mux muy : List Q) (cx cy : Mat) : Q :=
   (List.zipWith (fun a b => (a - b) * (a - b)) mux muy).sum +
   (((List.range cx.length).map fun i => (cx.getD i []).getD i 0).sum +
    ((List.range cy.length).map fun i => (cy.getD i []).getD i 0).sum)
+
+/-! ### typed class state machines (the driver wraps exactly these with argument parsing) -/
+
+/-- `Max` / `Min` : the state is the running extremum, `merge_state` folds `torch.max` over the sources. -/
+def extImpl (pick : Q → Q → Q) (empty : XQ) : Impl (List Q) (Option Q) XQ :=
+  additive ⟨none, opick pick⟩ (extStat pick) (fun s => .ok (extOut empty s))
+
+/-- `Covariance` : a batch is `(d, rows)` with `d = obs.shape[1]`. -/
+def covImpl : Impl (Nat × Mat) CovS (List Q × Mat) where
+  init := covInit
+  upd s b := .ok (covUpdate b.1 s b.2)
+  mrg s ss := .ok (ss.foldl covCombine s)
+  out := covCompute
+
+/-- `Throughput` : a batch is `(num_processed, elapsed_time_sec)`. -/
+def thrImpl : Impl (Q × Q) (Q × Q) Q where
+  init := (0, 0)
+  upd s b := thrUpd s b.1 b.2
+  mrg s ss := .ok (thrMrg s ss)
+  out s := .ok (thrOut s)
+
+/-- `PeakSignalNoiseRatio` : a batch is `(input, target)` flattened; output = argument of `log10`. -/
+def psnrImpl (dataRange : Option Q) : Impl (List Q × List Q) PsnrS XQ where
+  init := psnrInit dataRange
+  upd s b := psnrUpd dataRange.isNone s b.1 b.2
+  mrg s ss := .ok (psnrMrg dataRange.isNone s ss)
+  out s := .ok (psnrArg s.sse s.n s.range)
 
 end TE.Agg
